@@ -22,17 +22,21 @@ FoldC(c) == IF (c >= 65 /\ c <= 90) \/ (c >= 192 /\ c <= 222 /\ c # 215) THEN c 
 Fold(s) == [i \in 1..Len(s) |-> FoldC(s[i])]
 
 (* The per-glyph level of the include graph.
-   d.glyphOrder   = the glyphs of the font (ids), in glyph order;
-   d.glyphEntries = the entries of the glyf file in order, one per glyph:
+   d.glyphOrder   = the glyphs of the font (ids);
+   d.glyphEntries = the entries of the glyf file, one per glyph (fontTools writes them sorted by
+                    name; glyf.fromXML files each under its own name, so their order is immaterial):
                     [file |-> code points of the included file's name (<<>> = the glyph is inline),
                      holds |-> ids of the TTGlyph elements found there (inline: the element's own name;
-                               a missing file holds <<>>)].                                          *)
+                               a missing file holds <<>>)].
+   The entries must be a bijection onto the glyphs: every entry holds exactly one glyph and every
+   glyph is held by exactly one entry (an overwritten per-glyph file breaks the latter).          *)
 GlyphGraph(d) ==
   LET E == d.glyphEntries
       Inc == {i \in 1..Len(E) : E[i].file # <<>>}
   IN IF Len(E) # Len(d.glyphOrder) THEN "dump:glyf-file-does-not-list-every-glyph-once"
      ELSE IF Cardinality({Fold(E[i].file) : i \in Inc}) # Cardinality(Inc) THEN "dump:per-glyph-file-names-collide-ignoring-case"
-     ELSE IF \E i \in 1..Len(E) : E[i].holds # <<d.glyphOrder[i]>> THEN "dump:per-glyph-include-does-not-hold-exactly-its-glyph"
+     ELSE IF \E i \in 1..Len(E) : Len(E[i].holds) # 1 THEN "dump:per-glyph-include-does-not-hold-exactly-one-glyph"
+     ELSE IF {E[i].holds[1] : i \in 1..Len(E)} # Range(d.glyphOrder) THEN "dump:a-glyph-is-held-by-no-per-glyph-file"
      ELSE "ok"
 
 (* d = [main: seq of [tag, src], files: seq of [name, tags], glyfRefs: seq of names, numGlyphFiles, numInlineGlyphs,
